@@ -648,6 +648,20 @@ def cmdUpgradeBig : P String := do
     return s!"DIFF C18 client-did-not-receive-the-upgraded-payload expected={wantCli} got={lenCli} {feats}"
   return s!"OK {feats}"
 
+/-! ## scale: `scale <scenario> <n> | <bad> <first>` (one dimension far beyond what the driver replays; oracle evaluated in the harness) -/
+
+def cmdScale : P String := do
+  let scen ← tok
+  let n ← nat
+  expect "|"
+  let bad ← nat
+  let first ← tok
+  let feats := s!"nt=1 scenario={scen} n={if scen == "hugeframe" then n / 1048576 else n}"
+  let prop := if scen == "hugeframe" then "C03" else "C01"
+  if bad != 0 then
+    return s!"DIFF {prop} {scen}-at-scale-{first} bad={bad} {feats}"
+  return s!"OK {feats}"
+
 /-! ## C02 send side under concurrency: `bigframes <conns> <calls> <procs> | <bad> <first>` (oracle evaluated in the harness) -/
 
 def cmdBigFrames : P String := do
@@ -715,6 +729,6 @@ def cmdJsonStruct : P String := do
         return s!"DIFF JSON struct-reply-fields-differ {feats}"
       return s!"OK {feats}"
 
-def table : List (String × P String) := [("act", cmdAct), ("atoi", cmdAtoi), ("addr", cmdAddr), ("reg", cmdReg), ("client", cmdClient), ("e2e", cmdE2e), ("abort", cmdAbort), ("connr", cmdConnR), ("jsonself", cmdJsonSelf), ("upgrade", cmdUpgrade), ("upgradebig", cmdUpgradeBig), ("bigframes", cmdBigFrames), ("ctxsplit", cmdCtxSplit), ("jsonstruct", cmdJsonStruct)]
+def table : List (String × P String) := [("act", cmdAct), ("atoi", cmdAtoi), ("addr", cmdAddr), ("reg", cmdReg), ("client", cmdClient), ("e2e", cmdE2e), ("abort", cmdAbort), ("connr", cmdConnR), ("jsonself", cmdJsonSelf), ("upgrade", cmdUpgrade), ("upgradebig", cmdUpgradeBig), ("scale", cmdScale), ("bigframes", cmdBigFrames), ("ctxsplit", cmdCtxSplit), ("jsonstruct", cmdJsonStruct)]
 
 end Driver.Misc
